@@ -460,6 +460,11 @@ fn corrupt_case(run_seed: u64, tier: Tier) -> Case {
             }
         }
     }
+    if rng.fork("boundary").chance(1, 6) || std::env::var_os("RAINSIM_FORCE_BOUNDARY").is_some() {
+        // one image in six holds a WAL whose first record ends at / crosses the first 32 KiB block
+        // boundary (fragmented records, trailer padding) - everything else in these images is tiny
+        crate::gen::boundary_prefix(&mut rng.fork("boundary-shape"), &mut plan);
+    }
     let mut srng = rng.fork("sched");
     let sched = SchedSpec { strategy: Strategy::Sticky { q_permille: 990 }, seed: srng.next_u64() };
     let mut params = BTreeMap::new();
